@@ -88,6 +88,30 @@ def eval_term(tm, leaf: t.Callable[[tuple], t.Any]):
         lo = eval_term(tm[2], leaf) if tm[2] is not None else None
         hi = eval_term(tm[3], leaf) if tm[3] is not None else None
         return base[lo:hi]
+    if tag == "comp" and len(tm) >= 4 and tm[1] in ("list", "gen", "set") and tm[3]:
+        # [ELT for T in IT if COND ...]: evaluated over the concrete value of IT, the element term bound in turn
+        out = []
+
+        def run_gens(gi, lf):
+            if gi == len(tm[3]):
+                out.append(eval_term(tm[2], lf))
+                return
+            el, it, ifs = tm[3][gi]
+            for x in eval_term(it, lf):
+                def lf2(t_, x=x, el=el, lf=lf):
+                    if t_ == el:
+                        return x
+                    return lf(t_)
+                if all(eval_term(c, lf2) for c in ifs):
+                    run_gens(gi + 1, lf2)
+        run_gens(0, leaf)
+        return frozenset(out) if tm[1] == "set" else tuple(out)
+    if tag == "call" and tm[1][0] == "ext" and tm[1][1] in ("chr", "ord", "str", "bytes", "bytearray") and len(tm[2]) == 1 and not tm[3]:
+        import builtins
+        v = eval_term(tm[2][0], leaf)
+        if tm[1][1] in ("bytes", "bytearray") and isinstance(v, tuple):
+            v = list(v)
+        return getattr(builtins, tm[1][1] if tm[1][1] != "bytearray" else "bytes")(v)
     if tag == "call" and tm[1][0] == "ext" and tm[1][1] in ("min", "max", "abs", "int", "round", "float") and tm[2] and not tm[3]:
         import builtins
         return getattr(builtins, tm[1][1])(*[eval_term(a, leaf) for a in tm[2]])
